@@ -95,8 +95,16 @@ def load(fname, delimiter=",", with_time=False):
     try:
         if len(c):  # Converters exist, so use them.
             try:
+                # Empty cells of columns read with the decimal-comma converter are missing values
+                filling_values = {i: np.nan for i, f in c.items() if f is _string_to_float}
                 data = np.genfromtxt(
-                    fname, delimiter=delimiter, deletechars="", dtype=None, names=True, converters=c
+                    fname,
+                    delimiter=delimiter,
+                    deletechars="",
+                    dtype=None,
+                    names=True,
+                    converters=c,
+                    filling_values=filling_values,
                 )
                 return _boolean_to_nan(data, fname)
             except (
